@@ -51,6 +51,8 @@ THEOREMS = [
          "with the shelf temperature of that step", strength="full"),
     dict(name="Snow.C01.initIce_case_insensitive", clause="the selected initial-ice formulation depends on the "
          "lower-cased string only", strength="full"),
+    dict(name="Snow.C01.nonvacuous_run", clause="run_trichotomy_partial applied to the concrete run with ice of "
+         "C06.nonvacuous_run (the solidifying transition column 1 -> 2)", strength="nonvacuity"),
     dict(name="Snow.C01.nonvacuous", clause="hypotheses are satisfiable (default 5 wt.% sucrose constants)",
          strength="nonvacuity"),
 ]
